@@ -173,6 +173,30 @@ def f(x: int) -> float:
 ]
 
 
+# diagnostics that mention a Python VALUE (comptime expressions Guppy cannot represent): the text must not
+# contain anything run-dependent (default reprs with addresses, hash-ordered set reprs).  values x positions.
+_COMPTIME_VALUES = {
+    "object": "Gadget()", "function": "helper", "lambda": "(lambda: 1)", "str-set": "{'aa', 'bb', 'cc', 'dd'}",
+    "complex": "1j", "class": "Gadget", "module": "math",
+    "dict-of-sets": "{'k': {'p', 'q', 'r'}}", "bound-method": "Gadget().m", "nested-list": "[Gadget(), {'x', 'y', 'z'}]",
+}
+_COMPTIME_POSITIONS = {
+    "synth": "    y = comptime(val)\n    return 0\n",
+    "annotated": "    y: int = comptime(val)\n    return y\n",
+    "return": "    return comptime(val)\n",
+    "argument": "    return takes_int(comptime(val))\n",
+    "operand": "    return 1 + comptime(val)\n",
+    "tuple-elem": "    t: tuple[int, int] = (1, comptime(val))\n    return t[0]\n",
+}
+for _vn, _ve in _COMPTIME_VALUES.items():
+    for _pn, _pb in _COMPTIME_POSITIONS.items():
+        WITNESSES.append({
+            "name": f"comptime-{_vn}-{_pn}", "target": "f",
+            "prelude": "import math\nclass Gadget:\n    def m(self):\n        return 1\ndef helper():\n    return 1\n",
+            "src": f"val = {_ve}\n@guppy\ndef takes_int(x: int) -> int:\n    return x\n@guppy\ndef f() -> int:\n{_pb}",
+        })
+
+
 def _programs(ctx, everything=False):
     progs = [dict(w) for w in WITNESSES]
     import c08
